@@ -32,8 +32,15 @@ def observe(cfg, origin=0, variant=0):
     y = pd.Series([1000.0 + t for t in range(n)], index=idx)
     X = pd.DataFrame({"x": [3000.0 + t for t in range(n)]}, index=idx) if cfg["nx"] else None
     F = stubs.make_recording_forecaster()
+    fobj = F(tag=tagf)
+    if cfg.get("prefit"):
+        try:
+            fobj.fit(y, X=X, fh=[1])
+        except REJECT:
+            pass
+        stubs.reset(tagf)
     try:
-        res = evaluate(F(tag=tagf), make_cv(s, variant), y, X=X, strategy=cfg["strategy"],
+        res = evaluate(fobj, make_cv(s, variant), y, X=X, strategy=cfg["strategy"],
                        scoring=stubs.RecordingMetric(tagm), return_data=bool(variant % 3 == 0))
     except REJECT:
         return {"rej": True}
@@ -154,7 +161,8 @@ def random_cfg(rng, big):
     if kind == "single":
         s["wl"] = rng.randint(0, 12)
         s["fh"] = [h for h in fh if h < n] or [1]
-    return {"split": s, "strategy": rng.choice(["refit", "update"]), "nx": rng.choice([0, 1])}
+    return {"split": s, "strategy": rng.choice(["refit", "update"]), "nx": rng.choice([0, 1]),
+            "prefit": rng.random() < 0.3}
 
 
 def run(ctx):
